@@ -1288,7 +1288,7 @@ public:
     std::vector<short int> matches(dim, 0); // counts how many times a row could be assigned.
     Scalar min;
     Scalar h;
-    size_t uMin, uSubMin;
+    Scalar uMin, uSubMin;
     Scalar v2;
     std::vector<Scalar> d(dim); // 'cost-distance' in augmenting path calculation.
 
@@ -1332,10 +1332,11 @@ public:
           for (j = 0; j < dim; j++)
           {
             if (j != j1)
-              if (assignCost(i, j - 1) - v[j] < min)
-                min = assignCost(i, j - 1) - v[j - 1];
+              if (assignCost(i, j) - v[j] < min)
+                min = assignCost(i, j) - v[j];
           }
-          v[j1] = v[j1] - min;
+          if (dim > 1) // no other column to transfer from when dim == 1 (min stays infinite)
+            v[j1] = v[j1] - min;
         }
       }
     }
@@ -1359,7 +1360,7 @@ public:
         // find minimum and second minimum reduced cost over columns.
         uMin = assignCost(i, 0) - v[0];
         j1 = 0;
-        uSubMin = static_cast<size_t>(-std::log(0));
+        uSubMin = -std::log(0);
         for (j = 1; j < dim; j++)
         {
           h = assignCost(i, j) - v[j];
@@ -1443,7 +1444,7 @@ public:
       {
         if (up == low)         // no more columns to be scanned for current minimum.
         {
-          last = low - 1;
+          last = low; // columns colList[0..last-1] are ready (unsigned: do not store low - 1)
 
           // scan columns for up..dim-1 to find all indices for which new minimum occurs.
           // store these indices between low..up-1 (increasing up).
@@ -1517,7 +1518,7 @@ public:
       while (!unassignedFound);
 
       // update column prices.
-      for (k = 0; k <= last; k++)
+      for (k = 0; k < last; k++)
       {
         j1 = colList[k];
         v[j1] = v[j1] + d[j1] - min;
